@@ -2,26 +2,28 @@
 """Run the property's check against every kept seeded change (apply to /repo, check, undo) and
 record the outcome in seeded/<id>/meta.json. Usage: eval_seeds.py [ids...]"""
 import json, os, re, subprocess, sys
-root = "/verif/seeded"
+REPO = os.environ.get("EVAL_REPO", "/repo")
+VERIF = os.environ.get("EVAL_VERIF", "/verif")
+root = os.path.join(VERIF, "seeded")
 ids = sys.argv[1:] or sorted(os.listdir(root))
 for sid in ids:
     d = os.path.join(root, sid)
     meta = json.load(open(os.path.join(d, "meta.json")))
     prop = meta["property"]
-    if subprocess.run(["git", "-C", "/repo", "diff", "--quiet"]).returncode != 0:
+    if subprocess.run(["git", "-C", REPO, "diff", "--quiet"]).returncode != 0:
         sys.exit("repo dirty")
-    ap = subprocess.run(["git", "-C", "/repo", "apply", os.path.join(d, "patch.diff")], capture_output=True, text=True)
+    ap = subprocess.run(["git", "-C", REPO, "apply", os.path.join(d, "patch.diff")], capture_output=True, text=True)
     if ap.returncode != 0:
         meta["detection"] = {"error": "patch does not apply to current /repo HEAD: " + ap.stderr[:200]}
         json.dump(meta, open(os.path.join(d, "meta.json"), "w"), indent=1)
         print(sid, "PATCH DOES NOT APPLY")
         continue
     res = {}
-    ev_path = os.path.join("/verif/evidence", prop + ".json")
+    ev_path = os.path.join(VERIF, "evidence", prop + ".json")
     ev_saved = open(ev_path).read() if os.path.exists(ev_path) else None   # evidence belongs to the unchanged tree
     try:
         for tier in ("quick", "thorough"):
-            p = subprocess.run(["./check", prop, "--tier", tier], cwd="/verif", capture_output=True, text=True)
+            p = subprocess.run(["./check", prop, "--tier", tier], cwd=VERIF, capture_output=True, text=True)
             out = p.stdout
             vl = [l for l in out.split("\n") if l.startswith("VIOLATION")]
             summ = [l for l in out.split("\n") if l.startswith(f"[{prop}]")]
@@ -31,12 +33,12 @@ for sid in ids:
             if p.returncode == 1:
                 break
     finally:
-        subprocess.run(["git", "-C", "/repo", "checkout", "--", "."])
+        subprocess.run(["git", "-C", REPO, "checkout", "--", "."])
         if ev_saved is not None:
             open(ev_path, "w").write(ev_saved)
     det = any(v["exit"] == 1 for v in res.values())
     with_input = any(v["exit"] == 1 and v["violation_line"] and "no-failing-input-found" not in v["violation_line"] for v in res.values())
     meta["detection"] = {"check": f"./check {prop}", "detected": det, "with_failing_input": with_input, "runs": res,
-                         "repo_head": subprocess.check_output(["git", "-C", "/repo", "rev-parse", "--short", "HEAD"], text=True).strip()}
+                         "repo_head": subprocess.check_output(["git", "-C", REPO, "rev-parse", "--short", "HEAD"], text=True).strip()}
     json.dump(meta, open(os.path.join(d, "meta.json"), "w"), indent=1)
     print(sid, "detected" if det else "MISSED", "(failing input)" if with_input else "")
